@@ -99,6 +99,13 @@ def formulas(tier):
     for n in range(1, maxT + 1):
         for sh in tsh[n]:
             yield {"resp": True, "items": [("T", "+", sh)]}
+    # 1b. targeted four-leaf shapes: a sum / product minus a parenthesised sum (Model - Model)
+    L = ("L",)
+    for left in (("B", "+", L, L), ("B", "*", L, L)):
+        for right in (("B", "+", L, L), ("B", ":", L, L)):
+            for op in ("-", "+"):
+                yield {"resp": True, "items": [("T", "+", ("B", op, left, right))]}
+    yield {"resp": True, "items": [("T", "+", ("B", "+", L, L)), ("T", "+", L), ("T", "-", ("B", "+", L, L))]}
     # 2. chains of small items with literals
     small = [("T", op, sh) for op in "+-" for n in (1, 2) for sh in tsh[n] if n == 1 or sh[0] == "B" and sh[1] in ":*"]
     lits = [("lit", op, v) for op, v in LITS]
